@@ -24,6 +24,7 @@ func checkSpecs() map[string]CheckSpec {
 	add(CheckSpec{Property: "C03", Harnesses: []HarnessSpec{
 		{Func: "HC03_WKB", Domain: B, Covers: []string{"roundtrip", "refused"}},
 		{Func: "HC03_EWKB", Domain: B, Covers: []string{"roundtrip"}},
+		{Func: "HC03_MemberSRID", Domain: B, Tiers: "thorough", Covers: []string{"end"}},
 		{Func: "HC03_Unsupported", Domain: B, Covers: []string{"end"}},
 		{Func: "HC03_WriteFails", Domain: B, Covers: []string{"complete", "failed"}},
 		{Func: "HC03_ReadSplit", Domain: B, Covers: []string{"end"}},
@@ -124,5 +125,11 @@ func checkSpecs() map[string]CheckSpec {
 	}, Explanation: "wkt.Marshal followed by the real lexer, goyacc parser and grammar actions (wkt.Unmarshal) on every geometry tree of the bound, in five spellings of the text.",
 		Assumptions: []string{"model: strconv.FormatFloat(x,'f',-1,64) / ParseFloat(s,64) satisfy the shortest-round-trip contract (placeholder digit strings stand for the formatted ordinates)"},
 		Outside: []string{"an independent (non-library) WKT reader of the emitted text", "exponent / .5 / 5. number spellings, per-letter case mixes, bare multipoint members", "trees beyond the bound"}})
+	add(CheckSpec{Property: "C19", Harnesses: []HarnessSpec{
+		{Func: "HC19_BRecord", Pkg: "encoding/igc", Domain: B, Covers: []string{"accepted", "rejected"}},
+		{Func: "HC19_IRecord", Pkg: "encoding/igc", Domain: B, Covers: []string{"accepted", "rejected"}},
+	}, Explanation: "One inductive step of the IGC record parser (parseB, parseI) from an arbitrary state satisfying the extension-window invariant on an arbitrary line.",
+		Assumptions: []string{"cut: time.Date returns the zero Time (dates are not part of this check)"},
+		Outside: []string{"H records (regexp), the bufio/stream layer, dates and the two-digit year window, the encode->decode round trip"}})
 	return m
 }
